@@ -78,7 +78,11 @@ pub fn leak_delta(c: &Case) -> i64 {
     b2 - b1
 }
 
+/// number of case executions started by this process (heartbeat for the driver's hang watchdog)
+pub static PROGRESS: std::sync::atomic::AtomicU64 = std::sync::atomic::AtomicU64::new(0);
+
 pub fn run_any(c: &Case) -> Option<RunOut> {
+    PROGRESS.fetch_add(1, std::sync::atomic::Ordering::SeqCst);
     if c.property == "C23" {
         return run_guarded(c);
     }
@@ -111,6 +115,14 @@ fn main() {
             println!("{}", serde_json::to_string_pretty(&c).unwrap());
             let o = run_any(&c);
             eprintln!("{:?}", o.map(|o| (o.viol, o.stats, o.digest)));
+        }
+        Some("gen") => {
+            // print the generated case of a seed without running it
+            let prop = arg(&args, "--prop").unwrap();
+            let seed: u64 = arg(&args, "--seed").unwrap().parse().unwrap();
+            let tier = if arg(&args, "--tier") == Some("thorough") { props::Tier::Thorough } else { props::Tier::Quick };
+            let c = props::make_case(prop, seed, tier);
+            println!("{}", serde_json::to_string_pretty(&c).unwrap());
         }
         Some("rule") => println!("{}", props::info(&args[2]).rule),
         _ => {
@@ -183,6 +195,15 @@ fn cmd_run(args: &[String]) {
     let mut known_samples: Vec<serde_json::Value> = vec![];
     let cur_path = format!("{out_dir}/cur.{}", std::process::id());
     std::fs::create_dir_all(out_dir).unwrap();
+    // heartbeat: the driver kills a worker whose heartbeat file stops changing (a run that neither
+    // finishes nor reaches a scheduling point); minimisation keeps the counter moving
+    {
+        let hb = format!("{out_dir}/hb.{}", std::process::id());
+        std::thread::spawn(move || loop {
+            let _ = std::fs::write(&hb, format!("{}\n", PROGRESS.load(std::sync::atomic::Ordering::SeqCst)));
+            std::thread::sleep(std::time::Duration::from_millis(1000));
+        });
+    }
     let t0 = std::time::Instant::now();
     let mut stats: BTreeMap<String, u64> = BTreeMap::new();
     let mut hashes: HashSet<u64> = HashSet::new();
